@@ -26,6 +26,11 @@ CHECKS = {
          "Random plaintexts and settings (both ciphers, memory and disk base, empty and random secret/salt, host binding, WriteFile and chunked Writer) are written and read back by a second instance through ReadFile and Reader with several buffer sizes; stored bytes are searched for plaintext windows, nonces must be unique run-wide, another secret or salt must give an error and zero bytes. For stored files up to 256 bytes every truncation and every single-byte corruption (3 masks), sampled for larger files, is read through both paths: error, zero bytes delivered, no panic, filespace still usable afterwards (a leaked lock deadlocks the child). Name-space histories run against the tree model. Held on the explored cases.",
          "secrecy = absence of 16-byte plaintext windows (not a cryptographic claim); AES-GCM forgery probability ignored",
          "DESIGN.md §5 C05"),
+ "C08": ("exploration",
+         "event-log monitor (exactly-once / bounded in-flight / nothing after Wait) over stress runs with injected scheduling noise and faults, a scripted schedule through verif yield hooks for the consumer-exit window, Go race detector",
+         "The real fsloop.Loop runs over generated trees (empty, deep, wider than the channel capacity, random), hash-keyed filters, producer/consumer limits 0..16 and GOMAXPROCS 1/2/4/16, with noise injected from the hook points and the source's ReadDir and one injected callback or listing fault in part of the runs; callbacks log enter/exit events and an offline checker decides exactly-once, no unexpected node, in-flight bound, nothing after Wait, error present iff injected. A controller parks every consumer at the hook between its two exit tests while a gated source lets the last directory be listed and the close be announced (also through fshelper.Copy). Race reports in fsloop/jobsync decide. Held on the schedules produced, counted by hook-order signature.",
+         "interleavings are sampled, not enumerated; only the window for which hooks exist is forced deterministically",
+         "DESIGN.md §5 C08"),
  "C17": ("exploration",
          "runtime oracle over bounded-exhaustive + random inputs (reference splitter / render-split round trip)",
          "ReadArguments is run on every byte string up to a length bound over the 9 significant bytes (no panic, bounded reads, exact expected result on the quote-free sub-language) and on scripts rendered from random argument lists by a reference quoting function; InjectArgs mapping compared with an independent expectation. Held on the enumerated/sampled inputs only.",
